@@ -7,9 +7,12 @@ import (
 	"crypto/rand"
 	"encoding/json"
 	"encoding/pem"
+	"fmt"
 	"net/http"
 	"os"
 	"path/filepath"
+	"strings"
+	"time"
 
 	"go.step.sm/crypto/jose"
 	"go.step.sm/crypto/minica"
@@ -29,17 +32,20 @@ type RealOpts struct {
 	EnableAdmin  bool
 	Logger       bool // a "logger" section in the configuration (the request logger wraps every route)
 	Config       func(*config.Config)
+	Run          bool // write the configuration to <dir>/ca.json, start the servers: (*RealCA).Reload works
 }
 
 // RealCA is the certificate authority assembled by the repository's own ca.New / (*CA).Init from a
 // configuration on disk: real routers, middleware (request id, logger, monitoring), base context. Requests are
 // served in-process through the handler Init built for the TLS server (hook ca.VerifHandler).
 type RealCA struct {
-	*CA     // Auth, MiniCA, JWK, SSH keys: token and certificate helpers work as for the embedded fixture
-	Real    *ca.CA
-	Handler http.Handler
-	Base    context.Context
-	Dir     string
+	*CA        // Auth, MiniCA, JWK, SSH keys: token and certificate helpers work as for the embedded fixture
+	Real       *ca.CA
+	Handler    http.Handler
+	Base       context.Context
+	Dir        string
+	Cfg        *config.Config // what was written to ConfigFile (Run): edit, Save, Reload
+	ConfigFile string
 }
 
 func writePEM(path, typ string, der []byte) error {
@@ -126,17 +132,61 @@ func NewRealCA(o RealOpts) (*RealCA, error) {
 		os.Stderr = null
 		defer func() { os.Stderr = saved }()
 	}
-	real, err := ca.New(cfg, ca.WithQuiet(true))
+	caOpts := []ca.Option{ca.WithQuiet(true)}
+	cfgFile := ""
+	if o.Run {
+		cfgFile = filepath.Join(dir, "ca.json")
+		if err := cfg.Save(cfgFile); err != nil {
+			return nil, err
+		}
+		caOpts = append(caOpts, ca.WithConfigFile(cfgFile))
+	}
+	real, err := ca.New(cfg, caOpts...)
 	if err != nil {
 		return nil, err
+	}
+	if o.Run {
+		go real.Run()
 	}
 	h, base := real.VerifHandler()
 	r := &RealCA{
 		CA:   &CA{Auth: real.VerifAuthority(), MiniCA: mca, JWK: jwk, JWKProv: jwkProv, SSHUser: sshU, SSHHost: sshH},
-		Real: real, Handler: h, Base: base, Dir: dir,
+		Real: real, Handler: h, Base: base, Dir: dir, Cfg: cfg, ConfigFile: cfgFile,
 	}
 	ok = true
 	return r, nil
+}
+
+// Reload does what SIGHUP does: (*ca.CA).Reload re-reads ConfigFile, builds a new CA and hands the listeners over.
+// The listener appears a moment after Run was started; until then Reload cannot copy it (it panics on the missing
+// listener), so it is tried again: only the waiting depends on time, the outcome does not.
+func (r *RealCA) Reload() error {
+	if null, err := os.OpenFile(os.DevNull, os.O_WRONLY, 0); err == nil {
+		saved := os.Stderr
+		os.Stderr = null
+		defer func() { os.Stderr = saved }()
+	}
+	var err error
+	for i := 0; i < 9000; i++ {
+		err = func() (err error) {
+			defer func() {
+				if p := recover(); p != nil {
+					err = fmt.Errorf("reload: %v", p)
+				}
+			}()
+			return r.Real.Reload()
+		}()
+		if err == nil {
+			r.Handler, r.Base = r.Real.VerifHandler()
+			r.CA.Auth = r.Real.VerifAuthority()
+			return nil
+		}
+		if !strings.HasPrefix(err.Error(), "reload: ") {
+			return err // Reload itself refused (configuration), not the missing listener
+		}
+		time.Sleep(20 * time.Millisecond)
+	}
+	return err
 }
 
 // Server wraps the real handler in the in-process serving helper (panic capture, time bound).
